@@ -279,6 +279,12 @@ def r01_6_shared(repo: Repo, rep: Report):
     rep.rule("R09.5", "returndata (shared with C09)")
     for f in (r06_3_operator_table, r06_5_bool_closedness, r09_1_snapshot_restore, r09_2_message_construction, r09_4_value_transfer, r09_5_returndata):
         f(repo, rep)
+    # storage model (C08) and code reads / decoding (C19): a reported end state contains storage and memory contents
+    from hsa.rules.c08 import r08_2_decode_siblings, r08_3_load_store_agreement, r08_4_transient
+    from hsa.rules.c19 import r19_1_insn_len, r19_2_scanner_decoder, r19_4_stop_beyond_end, r19_8_code_slice_zero_pad
+
+    for f in (r08_2_decode_siblings, r08_3_load_store_agreement, r08_4_transient, r19_1_insn_len, r19_2_scanner_decoder, r19_4_stop_beyond_end, r19_8_code_slice_zero_pad):
+        f(repo, rep)
 
 
 RULES = [r01_1_dispatch_totality, r01_2_3_arm_semantics, r01_4_modelling_obligations, r01_5_halting, r01_6_shared]
